@@ -390,14 +390,17 @@ func nftRandom(fl *drv.Flags, rng *rand.Rand, w *chain.TraceWriter) {
 	idPool := []string{"tka", "tkab", "tk/a", "tkb", "cla"}
 	e := newNftEnv(fl, classPool, idPool, 0)
 	e.start(w)
-	vals := []string{"a", "b", "", "c"}
+	// field-specific values (a mix-up of two fields is visible), "" and one value
+	// shared by all fields
+	vals := map[string][]string{"n": {"na", "nb", "", "x"}, "u": {"ua", "ub", "", "x"},
+		"h": {"ha", "hb", "", "x"}, "d": {"da", "db", "", "x"}}
 	pick := func(l []string) string { return l[rng.Intn(len(l))] }
 	metaArg := func(ev chain.M, pKeep int, allowKeepData bool) {
 		for _, f := range []string{"n", "u", "h", "d"} {
 			if rng.Intn(100) < pKeep && (f != "d" || allowKeepData) {
 				ev[f] = keep
 			} else {
-				ev[f] = pick(vals)
+				ev[f] = pick(vals[f])
 			}
 		}
 	}
